@@ -214,7 +214,7 @@ func (w *ringW) exec(r *hx.Run, f []string) (string, string) {
 		return line, strconv.FormatBool(ok)
 	case "slice":
 		got := w.b.ToSlice()
-		defer scribble(got) // the caller owns the returned slice
+		retainInts("ring", line, got) // the caller owns the returned slice
 		if len(w.hist) > w.cap {
 			w.read = true // read after wrapping around
 		}
